@@ -29,7 +29,7 @@ impl Prop for C03 {
     }
     fn phases(&self, tier: Tier) -> Vec<Phase> {
         vec![
-            Phase::new("random-terms", tier.pick(30_000, 1_500_000)).min_cases(tier.pick(10_000, 500_000)).timeouts(120, tier.pick(400, 3000)),
+            Phase::new("random-terms", tier.pick(30_000, 100_000)).min_cases(tier.pick(10_000, 25_000)).timeouts(120, tier.pick(400, 3000)),
             Phase::new("small-terms", tier.pick(20_000, 600_000)).min_cases(tier.pick(8000, 200_000)).timeouts(120, tier.pick(400, 3000)),
         ]
     }
